@@ -204,6 +204,28 @@ def run():
     chk.exhaustive = True
     chk.extra["graphs_enumerated_by_tlc"] = len(graphs)
     r = rng("c18")
+    # larger random graphs (4-7 objects: empty containers next to cycles, deep sharing), judged by the same TLA+ contract
+    n_random = 1500 if t == "quick" else 20000
+    for _ in range(n_random):
+        nobj_r = r.randint(3, 7)
+        g = []
+        for i in range(1, nobj_r + 1):
+            kind = r.choice(("list", "list", "dict", "tuple"))
+            nk = r.choice((0, 0, 1, 2, 2, 3))
+            if kind == "dict":
+                nk = min(nk, 3)
+            kids = []
+            for _ in range(nk):
+                c = r.random()
+                if c < 0.45:
+                    kids.append(-r.randint(1, 4))
+                elif c < 0.85:
+                    kids.append(r.randint(min(i + 1, nobj_r), nobj_r))       # forward edge (tree / sharing)
+                else:
+                    kids.append(r.randint(1, nobj_r))                        # any edge (possibly a cycle)
+            g.append({"kind": kind, "kids": kids})
+        graphs.append(g)
+    chk.extra["random_graphs"] = n_random
     jobs = []
     combos = [(e, s, c, i) for e in ("json", "basic", "pydiff") for s in ("auto", "match", "none")
               for c, i in ((True, False), (True, True), (False, False))]
